@@ -60,6 +60,11 @@ def _check_inv(ctx, t, where):
     fwd_outstanding = bool(fo()) if fo is not None else False
     ctx.check(armed == (len(t._sent_queue) > 0 or fwd_outstanding), where + "-T-t3-armed-iff-data-outstanding")
     ctx.check(not (len(t._outbound_queue) > 0 and len(t._sent_queue) == 0), where + "-Q-outbound-waits-only-behind-outstanding-data")
+    if t._association_state == t.State.ESTABLISHED and where != "pre":
+        # at quiescence nothing is parked above the association (a parked message may wait for the
+        # next acknowledgement, but only while there is something left to be acknowledged)
+        quiet = len(t._sent_queue) == 0 and len(t._outbound_queue) == 0 and not fwd_outstanding
+        ctx.check(not (quiet and len(t._data_channel_queue) > 0), where + "-Q2-nothing-parked-in-the-channel-queue-at-quiescence")
     for c in t._sent_queue:
         ctx.check(sx.Not(sx.And(c._acked, c._retransmit)), where + "-gap-acked-chunk-not-marked-for-retransmission")
         ctx.check(sx.And(c._misses >= 0, c._misses <= 2), where + "-miss-counter-range")
@@ -346,7 +351,14 @@ def _recv(ctx, **params):
     return h_recv_bmc(ctx, **params)
 
 
+def _parked(ctx, **params):
+    from .c06_partial import h_step_forward_acked
+
+    return h_step_forward_acked(ctx, **params)
+
+
 HARNESSES = {
+    "parked-flush": Harness("parked-flush", _parked, lambda tier: [{"q": 0, "parked": True}, {"q": 1, "parked": True}], style="STEP", bounds="a reliable channel's message parked in the channel queue while only a FORWARD-TSN (and 0..1 chunks) is outstanding; one SACK with symbolic cumulative point: at quiescence nothing may stay parked", encoded=["aiortc.rtcsctptransport:RTCSctpTransport._receive_sack_chunk", "aiortc.rtcsctptransport:RTCSctpTransport._data_channel_flush"], twin="sack-over-forward-tsn-processed", opts={"samples": 1}),
     "recv-delivery": Harness(
         "recv-delivery",
         _recv,
